@@ -5,6 +5,7 @@
 package c10
 
 import (
+	"time"
 	"debug/elf"
 	"fmt"
 	"os"
@@ -361,6 +362,27 @@ func TestVerifC10(t *testing.T) {
 	if vkit.Replaying() {
 		p.Main(t, 0)
 		return
+	}
+	// VERIF_C10_FIRST=table: the process first touches the symbol table through the package's other entry points, then
+	// collections run (with time for finalizers), and only then names are looked up
+	if os.Getenv("VERIF_C10_FIRST") == "table" {
+		ts := vkit.NewStats("C10", unit("table-first"))
+		fns, err := unexports2.AllFunctions()
+		if err != nil || len(fns) == 0 {
+			ts.Note("AllFunctions: %d names, error %v", len(fns), err)
+		}
+		if sym, err := unexports2.GetFunctionSymbol(ownFuncA); err != nil || sym == nil {
+			ts.Note("GetFunctionSymbol(ownFuncA): %v", err)
+		}
+		for i := 0; i < 3; i++ {
+			runtime.GC()
+			time.Sleep(20 * time.Millisecond)
+		}
+		ts.Eval(1)
+		ts.Class("symbol-table-touched-then-collections-before-the-first-lookup")
+		ts.NonTrivial("table-first")
+		ts.NonTrivial("table-first/gc")
+		ts.Done()
 	}
 	// which kind of name the process looks up first is part of the input: VERIF_C10_FIRST=var starts with variables
 	if os.Getenv("VERIF_C10_FIRST") == "var" {
